@@ -578,7 +578,7 @@ func (t *tracer) replayPlan(plan []PlanStep, stepTimeout time.Duration) (int, st
 		}
 		if st.Fail {
 			// the specification says this action is a run-time error: the process panics (the driver dies with it); give it time
-			time.Sleep(stepTimeout)
+			time.Sleep(4 * time.Second)
 			return i, "the specification's error step did not bring the interpreter down"
 		}
 		for _, pid := range st.Done {
@@ -696,7 +696,7 @@ func execTraced(t *tracer, re *process.RuntimeEnvironment, procs []*process.Proc
 	var div int
 	var why string
 	if len(plan) > 0 {
-		div, why = t.replayPlan(plan, 3*time.Second)
+		div, why = t.replayPlan(plan, 12*time.Second)
 	} else {
 		div, why = t.replay(re, sched, 3*time.Second)
 	}
